@@ -512,7 +512,7 @@ pub fn run(cfg: &RunCfg) -> PropRun {
     let lr = &lim;
     let out = enumerate(cfg, "limits", move |shard, nsh| (0..lr.len()).filter(move |i| i % nsh == shard).map(move |i| vec![lr[i].clone(), lr[(i * 7 + 3) % lr.len()].clone()]), watched);
     run.absorb(out);
-    let out = campaign(cfg, ID, "pools", cfg.pick(40_000, 1_200_000), pool_strategy, watched);
+    let out = campaign(cfg, ID, "pools", cfg.pick(40_000, 400_000), pool_strategy, watched);
     run.absorb(out);
     risky(&mut run, cfg);
     scaling(&mut run, cfg);
